@@ -32,8 +32,16 @@ def main():
         if only and pid not in only and tag not in only:
             continue
         out = os.path.join(d, OUT)
+        patch_name = PATCH
         if HEADMODE and not os.path.exists(os.path.join(d, PATCH)):
-            continue
+            # round-2 seeds were written against the repaired tree: their patch.diff is the head patch
+            try:
+                if json.load(open(os.path.join(d, "meta.json"))).get("round") == 2:
+                    patch_name = "patch.diff"
+                else:
+                    continue
+            except Exception:
+                continue
         if os.path.exists(out):
             continue
         res = dict(id=tag, t0=time.time())
@@ -50,7 +58,7 @@ def main():
                 json.dump(res, open(out, "w"), indent=1); continue
             name = os.path.basename(demo_path)[:-3]
             reset()
-            rc, o = sh("git apply %s" % os.path.join(d, PATCH))
+            rc, o = sh("git apply %s" % os.path.join(d, patch_name))
             res["apply"] = rc == 0
             if rc != 0:
                 res["error"] = "patch does not apply: " + o[-300:]
@@ -66,7 +74,7 @@ def main():
             cmd = "cargo test -p %s --test %s --offline -j %s 2>&1 | tail -15" % (crate, name, J)
             rc, o = sh("cargo test -p %s --test %s --offline -j %s > /tmp/confirm/demo.out 2>&1; echo RC=$?; tail -12 /tmp/confirm/demo.out" % (crate, name, J))
             res["demo_with_patch_rc"] = int(re.search(r"RC=(\d+)", o).group(1)); res["demo_with_patch_tail"] = o[-600:]
-            rc, o2 = sh("git apply -R %s" % os.path.join(d, PATCH))
+            rc, o2 = sh("git apply -R %s" % os.path.join(d, patch_name))
             rc, o = sh("cargo test -p %s --test %s --offline -j %s > /tmp/confirm/demo.out 2>&1; echo RC=$?; tail -5 /tmp/confirm/demo.out" % (crate, name, J))
             res["demo_without_patch_rc"] = int(re.search(r"RC=(\d+)", o).group(1))
             res["confirmed"] = bool(res["build_ok"] and res["suite_failed"] == 0 and res["suite_passed"] > 2000
